@@ -53,3 +53,28 @@ package retry
 //@   requires wf_retry(a) && pending == 0 && !batch_open
 //@   modifies inferred:(*asyncFifoRetryImpl).retry
 //@   ensures [every-dealt-revision-reported] pending == 0
+
+// ---- C19 / C09: the retry queue is guarded by its mutex ----
+//@ monitor eventQueue queueSize head tail
+// (the list shape -- queueSize nodes reachable from head, tail last -- is a reachability
+// invariant outside this generator's fragment; only the lock discipline is checked here)
+
+//@ func (*eventQueue).size() (result)
+//@   props C19 C09
+//@   modifies inferred:(*eventQueue).size
+//@ func (*eventQueue).getHead() (result)
+//@   props C19 C09
+//@   modifies inferred:(*eventQueue).getHead
+//@ func (*eventQueue).push(event)
+//@   props C19 C09
+//@   nosafety
+//@   modifies inferred:(*eventQueue).push
+//@   ensures [appended-at-the-tail] e.tail != nil && e.tail.event == event && (locked(e.head) != nil ==> e.head == locked(e.head))
+//@ func (*eventQueue).pop()
+//@   props C19 C09
+//@   nosafety
+//@   modifies inferred:(*eventQueue).pop
+
+//@ func newEventNode(event) (result)
+//@   props C19 C09
+//@   ensures [node] result != nil && fresh(result) && result.event == event && result.next == nil
